@@ -61,6 +61,9 @@ CLAIMS["C13"] = dict(technique="Lean 4 invariant proof over every history of the
 CLAIMS["C14"] = dict(technique="Lean 4 proof of the admission decision stated outright (any supported / requested lists, arbitrary handler functions, any credentials, id, origin), negotiation loop proved by induction; differential: real handshakes on loopback against freshly configured real servers",
     text="Proved: a handshake is admitted iff the auth handler (if set) accepts well-formed basic-auth credentials, the check-client handler (if set) returns true, gorilla's upgrade preconditions hold, the origin check passes, a sub-protocol is negotiable (a non-empty requested one, supported if the server lists any) and the id is not already connected; what is negotiated is the first such protocol in the client's order; a refused client gets HTTP 400/401/403 or close 1002/1008 and triggers no new-client and no message callback; an admitted one triggers exactly one new-client callback. One defect found by this check was repaired (d5ec4cf: empty list element in the sub-protocol header).",
     note=BASE_NOTE + "gorilla's Upgrade and net/http are trusted dependencies (modelled, differentially exercised).", **_D)
+CLAIMS["C15"] = dict(technique="Lean 4 proof over every interleaving of a small-step model of writers / write pump / cleanup (invariant by induction over labels; termination measure + deadlock freedom); the pre-fix code's deadlock as a theorem; sequential differential on real client<->server sockets; concurrent monitor with dead-peer scenarios",
+    text="Proved for any number of concurrent writers and every schedule: no send on a closed channel (no panic); what reaches the network is a prefix of what Write accepted, in acceptance order, once each; while open nothing accepted is lost; a Write after cleanup returns an error; every step decreases a measure and whenever a Write has not returned some step is enabled, so every Write returns (never blocks forever). The same model without the closing channel deadlocks (theorem old_code_deadlocks): that defect was reproduced on the real code (graceful close racing 3+ writers; dead peer) and repaired (3faee00). Content fidelity for sizes up to 300 KiB and multi-byte UTF-8 is checked with hashes by the monitor (A-NET), not proved.",
+    note=BASE_NOTE + "Below the sequential schedule the model is tied to the source by fingerprints and the concurrent monitor only; gorilla/TCP are trusted.", **_D)
 CLAIMS["C16"] = dict(technique="Lean 4 proofs on the quiescent models (restart_fresh as a state equality, stop_is_silent, always_alive) + differential suites with stop/start at random points",
     text="Proved: in every reachable state Stop returns, drops queue and outstanding request silently, afterwards sends are refused and replies/timers discarded; Stop then Start yields a state equal to a freshly started endpoint. Three defects found by this check were repaired (094ff1f, 68f3322, b4d2189). Partial: the websocket layer's reconnect token (S2) and Stop racing sends below quiescence (S12) are not covered by theorems.",
     note=DISP_NOTE, **_D)
